@@ -245,18 +245,14 @@ def listing_rule(ctx, rid):
     need(len(listings) >= 2, "anchor lost: expected >= 2 directory listings of results/batches, found %d" % len(listings))
     samples = ["/scratch/.xyz-f/results/xyz-result-7.jbdmp", "/scratch/.xyz-f/batches/xyz-batch-12.jbdmp"]
     for fi, cfg, n, oc in writers:
-        pa = arg(oc, 0, "file")
         tmps = []
-        if isinstance(pa, ast.Name) and pa.id not in fi.params:
-            d = single_def(fi, pa.id, cfg)
-            if d is not None:
-                for s in samples:
-                    final = [p for p in fi.positional if p != fi.positional[0]]
-                    env = {p: s for p in fi.positional[1:]}
-                    try:
-                        tmps.append((s, ConstFold(ctx, fi, env).ev(d[1])))
-                    except AnalysisError:
-                        pass
+        texpr = c11.writer_tmp_expr(ctx, fi, cfg, oc)
+        if texpr is not None:
+            for s in samples:
+                env = {p: s for p in fi.positional[1:]}
+                t = ConstFold(ctx, fi, env).ev(texpr)
+                need(isinstance(t, str), "the writer's temporary name did not fold to a string")
+                tmps.append((s, t))
         for s in samples:
             for (lfi, lcall, sub, accepts, desc) in listings:
                 if os.path.basename(os.path.dirname(s)) != sub:
